@@ -94,6 +94,11 @@ pub struct ModelDom {
     pub dsd: Dsd,
     pub lines: RefCell<Vec<u64>>,
     pub finished: Cell<bool>,
+    /// C09: when set, the line of the token the tree builder is processing right now; every
+    /// TreeSink call must find the last `set_current_line` value equal to it
+    pub line_expect: Option<std::rc::Rc<Cell<u64>>>,
+    pub line_now: Cell<u64>,
+    pub line_mismatch: RefCell<Option<String>>,
 }
 
 pub const DOC: Id = 0;
@@ -138,10 +143,26 @@ impl ModelDom {
             dsd: Dsd::Deny,
             lines: RefCell::new(vec![]),
             finished: Cell::new(false),
+            line_expect: None,
+            line_now: Cell::new(1),
+            line_mismatch: RefCell::new(None),
+        }
+    }
+
+    fn check_line(&self, name: &str) {
+        if let Some(exp) = &self.line_expect {
+            if exp.get() != self.line_now.get() && self.line_mismatch.borrow().is_none() {
+                *self.line_mismatch.borrow_mut() = Some(format!(
+                    "TreeSink::{name} was called while the tree builder processed a token of line {}, but the last line forwarded through set_current_line is {}",
+                    exp.get(),
+                    self.line_now.get()
+                ));
+            }
         }
     }
 
     fn call(&self, name: &'static str) -> usize {
+        self.check_line(name);
         let n = self.calls.get() + 1;
         self.calls.set(n);
         if self.record_call_names {
@@ -415,6 +436,7 @@ impl TreeSink for ModelDom {
     }
 
     fn parse_error(&self, msg: Cow<'static, str>) {
+        self.check_line("parse_error");
         self.errors.borrow_mut().push(msg.to_string());
     }
 
@@ -740,6 +762,7 @@ impl TreeSink for ModelDom {
     }
 
     fn set_current_line(&self, line_number: u64) {
+        self.line_now.set(line_number);
         self.lines.borrow_mut().push(line_number);
         if self.record_events {
             self.events.borrow_mut().push(Event::Line(line_number));
